@@ -41,6 +41,11 @@ CHECKS = {
             "Each value: encode matches the RFC grammar and denotes the value, decode inverts it, the combined decoder classifies it. "
             "'All finite floats' is a grid, not a sweep (stated).",
             "trusted: refmodel/rfc_values.py (regexes written from RFC 5545 3.3, reference decoders)", "3/C03"),
+    "C19": ("bounded-exhaustive enumeration of recurrence rules (FREQ x all subsets of <=2/3 optional parts x all menu values x key case x value shape x construction path) through the real vRecur codec vs. a reference text/typing model and a differential dateutil expansion",
+            "Every rule over 16 optional parts (2-5 caller values each, incl. negative/ordinal/leap-month/RSCALE/SKIP/X parts, UNTIL as date, floating, UTC) "
+            "with <=2 (thorough 3) optional parts: encoded text must match the RECUR grammar with FREQ first and denote exactly the supplied parts, decoding "
+            "yields the reference's typed values, re-encoding is stable, and dateutil computes the same first 12 occurrences from the text as from an rrule built directly from the supplied parts.",
+            "trusted: the part menus/reference typing in checks/c19.py, dateutil as the 'standard expander'; jointly unsatisfiable BY pairs are round-tripped but not expanded", "3/C19"),
 }
 REASON_PENDING = "check under construction in this session; not claimed until it has been built, silenced on the unchanged tree and shown to detect a seeded change"
 ALL = [f"C{i:02d}" for i in range(1, 21)]
